@@ -13,6 +13,7 @@ import (
 	"go/token"
 	"go/types"
 	"os"
+	"strconv"
 	"strings"
 )
 
@@ -234,23 +235,68 @@ func (e *Env) sortSearchModel(call *ast.CallExpr, st *State, args []Value) (Valu
 	if lit == nil {
 		return nil, false
 	}
-	evalAt := func(idx *Term) *Term {
-		tmp := st.clone()
-		fakeCall := &ast.CallExpr{Fun: lit, Args: []ast.Expr{&ast.Ident{Name: "searchidx", NamePos: call.Pos()}}, Lparen: call.Lparen}
-		v := e.inlineLit(lit, fakeCall, tmp, []Value{idx})
-		t, ok := v.(*Term)
-		if !ok || t.Sort != SBool {
-			if os.Getenv("GOCV_SEARCHDBG") != "" {
-				fmt.Fprintf(os.Stderr, "sort.Search predicate not a boolean term in %s: %T %v\n", c.FI.Key, v, v)
-			}
-			return nil
-		}
-		return t
-	}
+	// The closure is evaluated once, at a symbolic index j, on a scratch state. Values the evaluation makes up (results
+	// of contracted calls, havocked reads) are functions of the index: every variable created during the evaluation is
+	// replaced by an uninterpreted function of j, and the facts the evaluation assumed about them (the callees'
+	// postconditions) are kept, universally over the searched range.
 	j := Var(c.freshName("sj"), c.idxSort())
-	pj := evalAt(j)
+	mark := c.fresh
+	tmp := st.clone()
+	nBefore := 0
+	if st.pc != nil {
+		nBefore = st.pc.n
+	}
+	fakeCall := &ast.CallExpr{Fun: lit, Args: []ast.Expr{&ast.Ident{Name: "searchidx", NamePos: call.Pos()}}, Lparen: call.Lparen}
+	var pj *Term
+	if v := e.inlineLit(lit, fakeCall, tmp, []Value{j}); v != nil {
+		if t, ok := v.(*Term); ok && t.Sort == SBool {
+			pj = t
+		} else if os.Getenv("GOCV_SEARCHDBG") != "" {
+			fmt.Fprintf(os.Stderr, "sort.Search predicate not a boolean term in %s: %T %v\n", c.FI.Key, v, v)
+		}
+	}
+	var facts []*Term
+	if pj != nil {
+		all := tmp.pc.list()
+		if len(all) >= nBefore && (nBefore == 0 || all[nBefore-1] == st.pc.t) {
+			facts = all[nBefore:]
+		} else {
+			pj = nil // the scratch state did not extend the caller's path condition: give up on the predicate
+		}
+	}
+	if pj != nil {
+		sk := map[string]*Term{}
+		var collect func(t *Term)
+		collect = func(t *Term) {
+			if t.Op == "var" && t.Name != j.Name {
+				if k := strings.LastIndex(t.Name, "!"); k > 0 {
+					if id, err := strconv.Atoi(t.Name[k+1:]); err == nil && id > mark {
+						if _, ok := sk[t.Name]; !ok {
+							sk[t.Name] = App("sk$"+t.Name, t.Sort, j)
+						}
+					}
+				}
+			}
+			for _, a := range t.Args {
+				collect(a)
+			}
+		}
+		collect(pj)
+		for _, f := range facts {
+			collect(f)
+		}
+		if len(sk) > 0 {
+			pj = subst(pj, sk)
+			for i, f := range facts {
+				facts[i] = subst(f, sk)
+			}
+		}
+	}
 	if pj != nil && !mentionsVar(pj, j.Name) && os.Getenv("GOCV_SEARCHDBG") != "" {
 		fmt.Fprintf(os.Stderr, "sort.Search predicate independent of the index in %s: %s\n", c.FI.Key, pj.String())
+	}
+	if c.LockSweep {
+		pj = nil // the lock sweep needs nothing of the search but its range
 	}
 	if pj == nil || !mentionsVar(pj, j.Name) {
 		// the predicate could not be evaluated as a function of the index (unmodelled code in the closure): nothing
@@ -259,6 +305,14 @@ func (e *Env) sortSearchModel(call *ast.CallExpr, st *State, args []Value) (Valu
 		r := c.freshVar("search", c.idxSort())
 		st.assume(And(c.ile(c.idxC(0), r), c.ile(r, n)))
 		return r, true
+	}
+	if len(facts) > 0 {
+		fj := Var(c.freshName("sj"), c.idxSort())
+		var inst []*Term
+		for _, f := range facts {
+			inst = append(inst, subst(f, map[string]*Term{j.Name: fj}))
+		}
+		st.assume(Forall([]*Term{fj}, Implies(And(c.ile(c.idxC(0), fj), c.ilt(fj, n)), And(inst...))))
 	}
 	at := func(x *Term) *Term { return subst(pj, map[string]*Term{j.Name: x}) }
 	r := c.freshVar("search", c.idxSort())
@@ -271,7 +325,14 @@ func (e *Env) sortSearchModel(call *ast.CallExpr, st *State, args []Value) (Valu
 	b := Var(c.freshName("sb"), c.idxSort())
 	mono := Forall([]*Term{a, b}, Implies(And(c.ile(c.idxC(0), a), c.ilt(a, b), c.ilt(b, n), at(a)), at(b)))
 	ord := c.siteOrdinal("assert", call.Pos())
-	c.oblige(st, "assert", "search-monotone#"+itoa(ord), call.Pos(), mono, "the predicate given to sort.Search is monotone over the searched range")
+	if c.Contract != nil && c.Contract.Flags["sortedinput"] != "" {
+		// "sortedinput": the data the search runs over is sorted as far as the predicate is concerned - an assumption
+		// about the input (a block that passed its checksum, as the writer emitted it), listed in the evidence
+		c.noteAssumed(fmt.Sprintf("%s: the predicate of sort.Search #%d is monotone over the searched range (sortedinput: %s)", c.Name, ord, c.Contract.Flags["sortedinput"]))
+		st.assume(mono)
+	} else {
+		c.oblige(st, "assert", "search-monotone#"+itoa(ord), call.Pos(), mono, "the predicate given to sort.Search is monotone over the searched range")
+	}
 	return r, true
 }
 
